@@ -428,13 +428,8 @@ func (s *vhsSess) finish(kind string, wga bool, inject map[int]int, complete boo
 		}
 	}
 	gd := 0
-	for i := 0; complete && i < 200; i++ { // judged only after a complete disconnect (connections still run otherwise)
-		gd = runtime.NumGoroutine() - s.g0
-		if gd <= 0 {
-			gd = 0
-			break
-		}
-		time.Sleep(2 * time.Millisecond)
+	if complete { // judged only after a complete disconnect (connections still run otherwise)
+		gd = vhsSettle(s.g0)
 	}
 	inj := [][]int{}
 	var ks []int
@@ -453,6 +448,21 @@ func (s *vhsSess) finish(kind string, wga bool, inject map[int]int, complete boo
 	}
 	return map[string]interface{}{"kind": kind, "wga": wga, "inject": inj, "steps": s.steps, "nhandles": nh, "complete": complete,
 		"dump_at": dumpAt, "dump": d, "returned": s.returned, "gdelta": gd, "broken": s.broken}
+}
+
+// vhsSettle waits for the goroutine count to come back to g0 (polling; gives up after 3 x 1 s: a loaded
+// box must not turn a slow exit into a leak) and returns the remaining surplus.
+func vhsSettle(g0 int) int {
+	gd := 0
+	for i := 0; i < 1500; i++ {
+		gd = runtime.NumGoroutine() - g0
+		if gd <= 0 {
+			return 0
+		}
+		runtime.Gosched()
+		time.Sleep(2 * time.Millisecond)
+	}
+	return gd
 }
 
 // abandon closes every connection without recording (used by recording runs).
